@@ -504,6 +504,6 @@ MUTANTS = [
 ]
 
 CLAIM = {
-    "text": "Decides, on every run from the current source of NestedSampler, the structural clauses the live-set property rests on for every model/seed/history: strict `>` acceptance guards dominate insertion and the yielded replacement; remove-worst -> integrate -> record -> advance -> stamp -> insert -> record-index happen in that order, exactly once per iteration on every CFG path; only the named methods write the live array / dead list / index list; the searchsorted block-shift index arithmetic is an exact linear identity; the initial set is the sorted nlive finite draws; finalise consumes in ascending order with counts nlive..1. 71 rule instances, each flipped by a one-token edit the mocked unit tests keep green (21 such mutants in the thorough tier). The pool handed to the live array is produced in canonical field order (model.names then the non-sampling fields) by every proposal, because numpy copies a structured row into the live array by position (R-FIELDS); the recorded insertion index is the value insert_live_point returned, through a local or directly. A positional (memory-order) view of a structured array - unstructured_view / ndarray.view((float, n)) - is combined only with scalars anywhere in the package, never with a per-parameter array such as the prior bounds (the flow proposal hands the model arrays in reparameterisation order). Each discarded point is recorded once across resumes too (C01.9): every call in consume_sample that can write a periodic checkpoint executes at an iteration boundary of the effect counters (the one pristine exception, check_state() in the retry loop with checkpoint_on_training, is a recorded finding).",
+    "text": "Decides, on every run from the current source of NestedSampler, the structural clauses the live-set property rests on for every model/seed/history: strict `>` acceptance guards dominate insertion and the yielded replacement; remove-worst -> integrate -> record -> advance -> stamp -> insert -> record-index happen in that order, exactly once per iteration on every CFG path; only the named methods write the live array / dead list / index list; the searchsorted block-shift index arithmetic is an exact linear identity; the initial set is the sorted nlive finite draws; finalise consumes in ascending order with counts nlive..1. 71 rule instances, each flipped by a one-token edit the mocked unit tests keep green (21 such mutants in the thorough tier). The pool handed to the live array is produced in canonical field order (model.names then the non-sampling fields) by every proposal, because numpy copies a structured row into the live array by position (R-FIELDS); the recorded insertion index is the value insert_live_point returned, through a local or directly. A positional (memory-order) view of a structured array - unstructured_view / ndarray.view((float, n)) - is combined only with scalars anywhere in the package, never with a per-parameter array such as the prior bounds (the flow proposal hands the model arrays in reparameterisation order). Each discarded point is recorded once across resumes too (C01.9): every call in consume_sample that can write a periodic checkpoint executes at an iteration boundary of the effect counters (the one pristine exception, check_state() in the retry loop with checkpoint_on_training, is a recorded finding). Every store into the drawn point happens under the acceptance fact p['logL'] > logLmin (C01.2): a rejected draw can be the recorded point itself.",
     "note": "Decides the shape of the code, not run-time values: proposals are assumed to return points whose logP/logL fields are truthful (in-package proposals are covered under C09), numpy searchsorted/sort semantics are trusted, NaN likelihood ordering and user Proposal subclasses are outside the analysed program.",
 }
